@@ -447,7 +447,12 @@ func (e *Exec) conv(dst, src types.Type, x Value) Value {
 						if e.Decide(tc.Cmp(OpUlt, t32, tc.BV(0x80, 32))) {
 							return &StrV{b: []*Term{tc.Extract(t32, 7, 0)}}
 						}
-						e.unsupported("string(rune) of symbolic non-ASCII rune")
+						if e.Decide(tc.Cmp(OpUlt, t32, tc.BV(0x800, 32))) {
+							hi := tc.Bin(OpOr, tc.ZExt(tc.Extract(t32, 10, 6), 3), tc.BV(0xC0, 8))
+							lo := tc.Bin(OpOr, tc.ZExt(tc.Extract(t32, 5, 0), 2), tc.BV(0x80, 8))
+							return &StrV{b: []*Term{hi, lo}}
+						}
+						e.unsupported("string(rune) of symbolic rune >= 0x800")
 					}
 					var r rune
 					if isUnsigned(src) {
